@@ -25,7 +25,8 @@ def fortran_float(number_string):
         return float(number_string)
 
     except ValueError as e:
-        update_number = re.sub(r"(\d)([-+])", r"\1E\2", number_string)
+        # the exponent may follow the decimal point directly: 5.+3
+        update_number = re.sub(r"([\d.])([-+])", r"\1E\2", number_string)
         try:
             return float(update_number)
         except ValueError:
